@@ -90,6 +90,20 @@ func runPrefix(c *Ctx) {
 	for hi := 0; hi < nh; hi++ {
 		runPrefixHistory(c, hi, pools[r.Intn(len(pools))], 1+r.Intn(c.Scale(30, 40)), nil)
 	}
+	// scripted: hint-less, ::/0, two prefixes in one message then renewing only the second
+	for k, pl := range pools[:3] {
+		p2 := pdHint{absentPrefix: true, class: "length-0"}
+		runPrefixHistory(c, 9000+2*k, pl, 7, []pfxScript{
+			{client: 0, ias: []pdIA{{iaid: [4]byte{0, 0, 0, 1}}}},
+			{client: 0, ias: []pdIA{{iaid: [4]byte{0, 0, 0, 1}, hints: []pdHint{p2}}}},
+			{client: 0, ias: []pdIA{{iaid: [4]byte{0, 0, 0, 1}}}},
+			{client: 1, ias: []pdIA{{iaid: [4]byte{0, 0, 0, 1}}, {iaid: [4]byte{0, 0, 0, 2}, hints: []pdHint{{ip: net.IPv6zero, plen: pl.page + 8, class: "length-only"}}}}},
+			{client: 1, ias: []pdIA{{iaid: [4]byte{0, 0, 0, 2}, hints: []pdHint{{class: "second-held"}}}}},
+			{client: 1, ias: []pdIA{{iaid: [4]byte{0, 0, 0, 2}, hints: []pdHint{{class: "second-held"}}}}},
+			{client: 1, ias: []pdIA{{iaid: [4]byte{0, 0, 0, 1}, hints: []pdHint{p2}}}},
+		})
+	}
+	runPrefixGate(c)
 	runPrefixConcurrent(c, c.Scale(20, 300))
 	c.Extra["rule"] = "histories of 1..40 DHCPv6 messages from 1..6 clients through the prefix plugin (odd histories through Plugin.Setup6, even ones through a Handler built by the verif hook so that its records are read back), each with 0..3 IA_PDs of 0..3 hints drawn from {none, length-only, length 0 (nil prefix on the wire), in-pool free, held by self (exact), held by another client, out of pool, longer than the allocation size, duplicate, length > 128}, direct or relayed, on pools small enough to exhaust; concurrent phase: the same client's hint-less request from 8 goroutines at once; non-trivial = distinct history with >= 2 messages and >= 1 delegation"
 }
@@ -147,6 +161,9 @@ func runPrefixHistory(c *Ctx, hi int, pl pfxPool, nmsgs int, script []pfxScript)
 		return out
 	}
 	ncl := 1 + r.Intn(6)
+	if script != nil && ncl < 2 {
+		ncl = 2
+	}
 	duids := []dhcpv6.DUID{}
 	for i := 0; i < ncl; i++ {
 		duids = append(duids, &dhcpv6.DUIDLL{HWType: iana.HWTypeEthernet, LinkLayerAddr: net.HardwareAddr{2, 0, 0, 0, byte(hi), byte(i)}})
@@ -225,6 +242,23 @@ func runPrefixHistory(c *Ctx, hi int, pl pfxPool, nmsgs int, script []pfxScript)
 			}
 			// retransmission of the previous message now and then
 		}
+		for ai := range sc.ias {
+			for hj := range sc.ias[ai].hints {
+				if sc.ias[ai].hints[hj].class == "second-held" {
+					ks := []pfxKey{}
+					for k := range held[sc.client] {
+						ks = append(ks, k)
+					}
+					sort.Slice(ks, func(a, b int) bool { return ks[a].ip+fmt.Sprint(ks[a].ones) < ks[b].ip+fmt.Sprint(ks[b].ones) })
+					if len(ks) > 0 {
+						k := ks[len(ks)-1]
+						sc.ias[ai].hints[hj] = pdHint{ip: net.ParseIP(k.ip), plen: k.ones, class: "held-by-self"}
+					} else {
+						sc.ias[ai].hints[hj] = pdHint{absentPrefix: true, class: "length-0"}
+					}
+				}
+			}
+		}
 		m := &dhcpv6.Message{MessageType: []dhcpv6.MessageType{dhcpv6.MessageTypeSolicit, dhcpv6.MessageTypeRequest, dhcpv6.MessageTypeRenew}[r.Intn(3)]}
 		copy(m.TransactionID[:], r.Bytes(3))
 		if !sc.noCid {
@@ -266,7 +300,38 @@ func runPrefixHistory(c *Ctx, hi int, pl pfxPool, nmsgs int, script []pfxScript)
 			}
 			pdItems = append(pdItems, fmt.Sprintf("(%s, %s)", vBytes(ia.IaId[:]), vList(hs)))
 		}
+		// the hints as the client sent them (the handler may write into the request: it replaces a nil prefix)
+		type hintInfo struct {
+			isNil bool
+			key   pfxKey
+			ip    net.IP
+		}
+		reqInfo := make([][]hintInfo, len(reqIAs))
+		for k, ia := range reqIAs {
+			for _, p := range ia.Options.Prefixes() {
+				if p.Prefix == nil {
+					reqInfo[k] = append(reqInfo[k], hintInfo{isNil: true})
+				} else {
+					ones, _ := p.Prefix.Mask.Size()
+					reqInfo[k] = append(reqInfo[k], hintInfo{key: pfxKey{p.Prefix.IP.String(), ones}, ip: append(net.IP{}, p.Prefix.IP...)})
+				}
+			}
+		}
 		c.Breadcrumb(rec())
+		if hook != nil && !sc.noCid && r.Pct(25) {
+			// time lapse: the client's leases ran out some time ago (their record stays)
+			back := []time.Duration{30 * time.Minute, 2 * time.Hour, 61 * time.Minute}[r.Intn(3)]
+			hook.Lock()
+			ls := hook.Records[string(duids[sc.client].ToBytes())]
+			for i := range ls {
+				ls[i].Expire = ls[i].Expire.Add(-back)
+			}
+			hook.Unlock()
+			if len(ls) > 0 {
+				c.Count("time-lapse:" + back.String())
+				opS = append(opS, fmt.Sprintf("(client %d: %v pass)", sc.client, back))
+			}
+		}
 		t0 := time.Now()
 		var out dhcpv6.DHCPv6
 		var stop, panicked bool
@@ -340,6 +405,7 @@ func runPrefixHistory(c *Ctx, hi int, pl pfxPool, nmsgs int, script []pfxScript)
 		for k := range held[cl] {
 			heldBefore[k] = true
 		}
+		newThisMsg := map[pfxKey]bool{}
 		for k, ia := range respIAs {
 			if ia.IaId != reqIAs[k].IaId {
 				c.vio("C08", "iapd-iaid", fmt.Sprintf("IA_PD %d of the reply has IAID %x, the request has %x", k, ia.IaId, reqIAs[k].IaId), rec())
@@ -389,27 +455,48 @@ func runPrefixHistory(c *Ctx, hi int, pl pfxPool, nmsgs int, script []pfxScript)
 				}
 			}
 			// C09: renewals and repeats
-			reqHints := reqIAs[k].Options.Prefixes()
-			hintless := len(reqHints) == 0 || (len(reqHints) == 1 && reqHints[0].Prefix == nil)
+			reqHints := reqInfo[k]
+			hintless := len(reqHints) == 0 || (len(reqHints) == 1 && reqHints[0].isNil)
 			for _, hp := range reqHints {
-				if hp.Prefix == nil {
+				if hp.isNil {
 					continue
 				}
-				ones, _ := hp.Prefix.Mask.Size()
-				key := pfxKey{hp.Prefix.IP.String(), ones}
+				key := hp.key
 				if heldBefore[key] && !got[key] {
 					// an exact hint for a prefix the client holds - unless another IA_PD of this message was already answered with it
 					already := false
 					for kk := 0; kk < k; kk++ {
 						for _, q := range respIAs[kk].Options.Prefixes() {
-							if q.Prefix != nil && q.Prefix.IP.Equal(hp.Prefix.IP) {
+							if q.Prefix != nil && q.Prefix.IP.Equal(hp.ip) {
 								already = true
 							}
 						}
 					}
 					if !already {
-						c.vio("C09", "renewal-not-honoured", fmt.Sprintf("client %d holds %v and asked for exactly it, the IA_PD was answered with %v", cl, hp.Prefix, keysOf(got)), rec())
+						c.vio("C09", "renewal-not-honoured", fmt.Sprintf("client %d holds %s/%d and asked for exactly it, the IA_PD was answered with %v", cl, key.ip, key.ones, keysOf(got)), rec())
 					}
+				}
+			}
+			// an IA_PD made only of hints for exactly-held prefixes (or of no hint) must not be given a new prefix
+			onlyKnown := len(heldBefore) > 0
+			for _, hp := range reqHints {
+				if hp.isNil {
+					continue
+				}
+				if !heldBefore[hp.key] {
+					onlyKnown = false
+				}
+			}
+			if onlyKnown {
+				for key := range got {
+					if !heldBefore[key] && !newThisMsg[key] {
+						c.vio("C09", "retransmit-consumes-block", fmt.Sprintf("client %d holds %v and sent an IA_PD asking only for what it holds (%d hints); it was given the additional new prefix %v", cl, keysOf(heldBefore), len(reqHints), key), rec())
+					}
+				}
+			}
+			for key := range got {
+				if !heldBefore[key] {
+					newThisMsg[key] = true
 				}
 			}
 			if hintless && len(respIAs) == 1 && len(heldBefore) > 0 {
@@ -513,4 +600,99 @@ func runPrefixConcurrent(c *Ctx, rounds int) {
 		// afterwards the client(s) must get the same prefix again
 	}
 	c.Dist["concurrent-prefix-rounds"] = rounds
+}
+
+// gateAlloc lets the harness hold a message inside the allocator.
+type gateAlloc struct {
+	inner interface {
+		Allocate(hint net.IPNet) (net.IPNet, error)
+		Free(net.IPNet) error
+	}
+	entered chan int
+	release chan struct{}
+	gated   int32
+	mu      sync.Mutex
+	n       int
+}
+
+func (g *gateAlloc) Allocate(hint net.IPNet) (net.IPNet, error) {
+	g.mu.Lock()
+	g.n++
+	k := g.n
+	first := g.gated == 0
+	g.gated = 1
+	g.mu.Unlock()
+	g.entered <- k
+	if first {
+		<-g.release
+	}
+	return g.inner.Allocate(hint)
+}
+func (g *gateAlloc) Free(p net.IPNet) error { return g.inner.Free(p) }
+
+// runPrefixGate forces the interleaving "a second message arrives while the first one is inside
+// the allocator": with one critical section per message the second cannot get in before the
+// first has recorded its lease, so a client and its retransmission get the same prefix.
+func runPrefixGate(c *Ctx) {
+	for _, same := range []bool{true, false} {
+		_, pn, _ := net.ParseCIDR("2001:db8:0:100::/56")
+		inner, err := bitmap.NewBitmapAllocator(*pn, 64)
+		if err != nil {
+			return
+		}
+		g := &gateAlloc{inner: inner, entered: make(chan int, 8), release: make(chan struct{})}
+		h := prefix.NewVerifHandler(g)
+		mk := func(i byte) dhcpv6.DHCPv6 {
+			m := &dhcpv6.Message{MessageType: dhcpv6.MessageTypeSolicit}
+			m.AddOption(dhcpv6.OptClientID(&dhcpv6.DUIDLL{HWType: iana.HWTypeEthernet, LinkLayerAddr: net.HardwareAddr{2, 8, 8, 0, 0, i}}))
+			m.AddOption(&dhcpv6.OptionGeneric{OptionCode: dhcpv6.OptionIAPD, OptionData: iapdPayload(pdIA{iaid: [4]byte{0, 0, 0, 1}})})
+			req, _ := dhcpv6.FromBytes(m.ToBytes())
+			return req
+		}
+		res := make([][]string, 2)
+		var wg sync.WaitGroup
+		run := func(k int, cl byte) {
+			defer wg.Done()
+			defer func() { recover() }()
+			out, _ := h.Handle(mk(cl), &dhcpv6.Message{MessageType: dhcpv6.MessageTypeAdvertise})
+			if out == nil {
+				return
+			}
+			om, _ := out.GetInnerMessage()
+			for _, ia := range om.Options.IAPD() {
+				for _, p := range ia.Options.Prefixes() {
+					res[k] = append(res[k], p.Prefix.String())
+				}
+			}
+		}
+		wg.Add(1)
+		go run(0, 1)
+		<-g.entered // the first message is inside Allocate, and stays there
+		second := byte(1)
+		if !same {
+			second = 2
+		}
+		wg.Add(1)
+		go run(1, second)
+		overlapped := false
+		select {
+		case <-g.entered:
+			overlapped = true // the second message got into the allocator while the first was still inside
+		case <-time.After(150 * time.Millisecond):
+		}
+		close(g.release)
+		wg.Wait()
+		c.Evals++
+		c.Count("forced-interleaving")
+		input := map[string]interface{}{"schedule": "message 1 held inside Allocate; message 2 (same client: " + fmt.Sprint(same) + ") started; then message 1 released", "replies": res, "second_entered_allocator_meanwhile": overlapped}
+		if overlapped {
+			c.vio("C16", "critical-section-open", "a second message entered the allocator while the first was between its record lookup and its record update (the plugin lock does not cover the whole message)", input)
+		}
+		if same && (len(res[0]) != 1 || len(res[1]) != 1 || res[0][0] != res[1][0]) {
+			c.vio("C09", "concurrent-same-client", fmt.Sprintf("a client's hint-less request and its retransmission, arriving while the first was being handled, were answered with %v and %v", res[0], res[1]), input)
+		}
+		if !same && len(res[0]) == 1 && len(res[1]) == 1 && res[0][0] == res[1][0] {
+			c.vio("C08", "prefix-overlap", fmt.Sprintf("two clients handled concurrently were both given %v", res[0]), input)
+		}
+	}
 }
